@@ -686,7 +686,13 @@ func writeFieldReadByter(name string, typ FieldType, w *iohelp.ErrorWriter, sett
 			ln = getLineWithTabs(settings.typeByteReaders[typ.Map.Key], depth+1, depthName("k", depth), typ.goString(settings))
 		}
 		w.SafeWrite([]byte(strings.Replace(ln, "=", ":=", 1)))
-		writeFieldReadByter("("+name+")["+depthName("k", depth)+"]", typ.Map.Value, w, settings, depth+1, safe)
+		// the value is decoded into a variable of its own and stored once it is complete:
+		// filling it in place through the map would look the key up again for every
+		// element, which never finds a NaN key
+		vName := depthName("mv", depth)
+		writeLineWithTabs(w, "var "+vName+" "+typ.Map.Value.goString(settings), depth+1)
+		writeFieldReadByter(vName, typ.Map.Value, w, settings, depth+1, safe)
+		writeLineWithTabs(w, "(%ASGN)["+depthName("k", depth)+"] = "+vName, depth+1, name)
 		writeLineWithTabs(w, "}", depth)
 	} else {
 		simpleTyp := typ.Simple
